@@ -33,6 +33,16 @@ enum T {
 fn encode_entries(es: &[(Vec<u8>, T)], o: &mut String) {
     for (n, t) in es {
         match t {
+            // a long run of one byte is written as `G<name>:<length>x<byte>;` (large files stay out of the case line)
+            T::F(c) if c.len() > 4096 && c.iter().all(|b| *b == c[0]) => {
+                o.push('G');
+                o.push_str(&hex(n));
+                o.push(':');
+                o.push_str(&c.len().to_string());
+                o.push('x');
+                o.push_str(&hex(&c[..1]));
+                o.push(';');
+            }
             T::F(c) => {
                 o.push('F');
                 o.push_str(&hex(n));
@@ -77,6 +87,27 @@ fn parse_entries(s: &[u8], mut i: usize) -> Option<(Vec<(Vec<u8>, T)>, usize)> {
                 }
                 es.push((n, T::F(c)));
                 i = k + 1;
+            }
+            b'G' => {
+                let (n, j) = hexrun(i + 1);
+                if s.get(j) != Some(&b':') {
+                    return None;
+                }
+                let mut k = j + 1;
+                let mut len = 0usize;
+                while k < s.len() && s[k].is_ascii_digit() {
+                    len = len * 10 + (s[k] - b'0') as usize;
+                    k += 1;
+                }
+                if s.get(k) != Some(&b'x') || len > (64 << 20) {
+                    return None;
+                }
+                let (b, m) = hexrun(k + 1);
+                if b.len() != 1 || s.get(m) != Some(&b';') {
+                    return None;
+                }
+                es.push((n, T::F(vec![b[0]; len])));
+                i = m + 1;
             }
             b'D' => {
                 let (n, j) = hexrun(i + 1);
@@ -655,6 +686,33 @@ pub fn gen(out: &mut Out, thorough: bool, seed: u64) {
                 g.emit(&w, "file_handler", &p, "-", "/f", "-", false);
             }
         }
+        w.remove();
+    }
+    // one world with LARGE files (around the sizes at which reads are split: 64 KiB, 1 MiB, 2 MiB, 4 MiB): "intact" must
+    // not depend on the size of the file, on either runtime
+    {
+        let mut served: Vec<(Vec<u8>, T)> = Vec::new();
+        for (i, n) in [65_537usize, 1_048_577, 2_097_152, 2_097_153, 4_194_305].iter().enumerate() {
+            served.push((format!("big{}.bin", i).into_bytes(), T::F(vec![0x41 + i as u8; *n])));
+        }
+        served.push((b"index.html".to_vec(), T::F(vec![0x7a; 3_000_001])));
+        let es = vec![
+            (b"canary2.txt".to_vec(), T::F(b"CANARY-2 two levels up".to_vec())),
+            (b"outer".to_vec(), T::D(vec![
+                (b"canary.txt".to_vec(), T::F(b"<!-- CANARY-1 next to the root -->".to_vec())),
+                (b"served-x".to_vec(), T::D(vec![(b"canary.txt".to_vec(), T::F(b"CANARY-3".to_vec()))])),
+                (b"served".to_vec(), T::D(served)),
+            ])),
+        ];
+        let w = World::new(&es);
+        g.out.count("trees");
+        for i in 0..5 {
+            let name = format!("big{}.bin", i);
+            let tag0 = format!("P0:{}", hex(name.as_bytes()));
+            g.fire(&w, &format!("/{}", name), &tag0, true);
+        }
+        g.fire(&w, "/", "-", true);
+        g.fire(&w, "/index.html", "-", true);
         w.remove();
     }
     g.out.extra.insert("worlds".into(), format!("{} generated trees, removed after use; canaries at outer/canary.txt, outer/served-x/canary.txt, canary2.txt", trees));
